@@ -1,2 +1,187 @@
-From Verif Require Import Model.Chain.
-Example C05_placeholder : 1 = 1. Proof. reflexivity. Qed.
+(* Properties/C05.v — providers are opened only with complete, valid inputs, once.
+   Statements only; proofs in Proofs/EvalLog*.v.  All theorems are for ALL worlds (provider tables, loaders,
+   fault plans, modes), fuels, environment definitions and — where a start state appears — all states. *)
+From Verif Require Import Base.Bytes Model.Chain Model.GoText Model.Envelope Model.Eval Corr.EvalWire.
+From Verif Require Import Proofs.EvalLogKit Proofs.EvalLogInd Proofs.EvalLog Proofs.EvalLogOnce Proofs.EvalLogLoad
+                          Proofs.EvalLogCorr.
+From Verif Require Corr.C05.
+
+(* ---- open_only_when_opening: never while only checking ---- *)
+Theorem C05_open_only_when_opening : forall fuel W name d,
+  w_check W = true -> forall e, In e (ob_log (run fuel W name d)) -> is_open e = false.
+Proof. exact run_check_no_open. Qed.
+
+Theorem C05_open_only_when_opening_env : forall W fuel root name d,
+  w_check W = true -> forall e, In e (log (snd (eval_env W fuel root name d st0))) -> is_open e = false.
+Proof. exact check_no_open_env. Qed.
+
+(* the same as an invariant of each of the six evaluator functions, from any start state *)
+Theorem C05_check_no_open : forall W fuel, w_check W = true ->
+  all_six W fuel (fun s s' => Forall (fun e => is_open e = false) (log s) -> Forall (fun e => is_open e = false) (log s')).
+Proof. exact check_no_open. Qed.
+
+(* ---- open_inputs_known_valid_exact ---- *)
+(* every Open in the log of a run: the provider exists; the inputs are the export of a chain [iv] that has no
+   unknown part and validates against the provider's declared input schema; they are an object; the run is not
+   a check; [c] is the environment named in the expression id, [r] the root environment *)
+Theorem C05_open_inputs_ok : forall fuel W name d id p xin r c,
+  In (EvOpen id p xin r c) (ob_log (run fuel W name d)) ->
+  w_check W = false
+  /\ c = fst id
+  /\ (name <> "" -> r = name)
+  /\ exists pv iv,
+       alookup p (w_provs W) = Some pv
+       /\ export big_fuel iv = Some xin
+       /\ contains_unknowns iv = false
+       /\ x_has_unknown xin = false
+       /\ fst (validate (AccIn (pv_in pv)) iv) = true
+       /\ x_is_obj xin = true.
+Proof. exact run_open_inputs_ok. Qed.
+
+(* [eval_env] with an explicit root, as imports call it *)
+Theorem C05_open_inputs_ok_env : forall W fuel root name d id p xin r c,
+  In (EvOpen id p xin r c) (log (snd (eval_env W fuel root name d st0))) ->
+  w_check W = false
+  /\ c = fst id
+  /\ (eff_root root name <> "" -> r = eff_root root name)
+  /\ exists pv iv,
+       alookup p (w_provs W) = Some pv
+       /\ export big_fuel iv = Some xin
+       /\ contains_unknowns iv = false
+       /\ x_has_unknown xin = false
+       /\ fst (validate (AccIn (pv_in pv)) iv) = true
+       /\ x_is_obj xin = true.
+Proof. exact open_inputs_ok. Qed.
+
+(* expression level: evaluating an expression that sits in environment context [E] (id rooted at ec_name E)
+   from ANY state only prepends events; each new one is a LoadProvider, an Open with r = ec_root E,
+   c = ec_name E and the input facts above, or a Decrypt for ec_name E of a decoded envelope;
+   exactly one collaborator call per new event; the error count does not decrease *)
+Theorem C05_expr_events : forall W fuel E x xsec xbase id s,
+  fst id = ec_name E ->
+  exists new,
+    log (snd (eval_expr W fuel E x xsec xbase id s)) = new ++ log s
+    /\ Forall (ev_ok W Id_env E) new
+    /\ calls (snd (eval_expr W fuel E x xsec xbase id s)) = calls s + N.of_nat (length new)
+    /\ nerr s <= nerr (snd (eval_expr W fuel E x xsec xbase id s)).
+Proof. intros W fuel. exact (proj1 (expr_events_ok W fuel)). Qed.
+
+(* the environment named by an Open / Decrypt is the evaluated one or one whose Load is in the log *)
+Theorem C05_event_env_own_or_loaded : forall W fuel root name d e c,
+  In e (log (snd (eval_env W fuel root name d st0))) -> ev_env e = Some c ->
+  c = name \/ In (EvLoad c) (log (snd (eval_env W fuel root name d st0))).
+Proof. exact event_env_own_or_loaded. Qed.
+
+(* ---- open_at_most_once ---- *)
+Theorem C05_open_at_most_once : forall W fuel root name d,
+  NoDup (open_ids (log (snd (eval_env W fuel root name d st0)))).
+Proof. exact open_at_most_once. Qed.
+
+Theorem C05_open_at_most_once_events : forall W fuel root name d i j id p1 x1 r1 c1 p2 x2 r2 c2,
+  let l := log (snd (eval_env W fuel root name d st0)) in
+  nth_error l i = Some (EvOpen id p1 x1 r1 c1) -> nth_error l j = Some (EvOpen id p2 x2 r2 c2) -> i = j.
+Proof. exact open_at_most_once_events. Qed.
+
+(* the memo discipline behind it: from any state in which opened ids are distinct and memoised, every function
+   keeps that; and an id that already has a memo entry is never opened *)
+Theorem C05_once_inv_env : forall W fuel root name d s,
+  once_inv s -> once_inv (snd (eval_env W fuel root name d s)).
+Proof. intros W fuel. exact (proj2 (proj2 (proj2 (proj2 (proj2 (once_inv_preserved W fuel)))))). Qed.
+
+Theorem C05_memoized_not_opened : forall W fuel root name d s id,
+  has s id -> In id (open_ids (log (snd (eval_env W fuel root name d s)))) -> In id (open_ids (log s)).
+Proof. exact memoized_not_opened. Qed.
+
+(* ids of sub-expressions extend the parent's path: never equal to the parent, distinct for distinct steps *)
+Theorem C05_id_extend_neq : forall (id : eid) (stp : idstep), (fst id, snd id ++ [stp]) <> id.
+Proof. exact id_extend_neq. Qed.
+Theorem C05_id_extend_inj : forall (id : eid) (a b : idstep),
+  (fst id, snd id ++ [a]) = (fst id, snd id ++ [b]) -> a = b.
+Proof. exact id_extend_inj. Qed.
+
+(* ---- load_at_most_once, for EVERY fault plan: the loads that succeed (not the faulted call, loader returns a
+   parsed definition) have pairwise distinct names ---- *)
+Theorem C05_load_at_most_once : forall W fuel root name d,
+  NoDup (succ_loads W (log (snd (eval_env W fuel root name d st0)))).
+Proof. exact load_at_most_once. Qed.
+
+Theorem C05_load_at_most_once_no_fault : forall W fuel root name d,
+  w_fault W = None -> NoDup (ok_loads W (log (snd (eval_env W fuel root name d st0)))).
+Proof. exact load_at_most_once_no_fault. Qed.
+
+Theorem C05_run_open_at_most_once : forall fuel W name d, NoDup (open_ids (ob_log (run fuel W name d))).
+Proof. exact run_open_at_most_once. Qed.
+
+Theorem C05_run_load_at_most_once_no_fault : forall fuel W name d,
+  w_fault W = None -> NoDup (ok_loads W (ob_log (run fuel W name d))).
+Proof. exact run_load_at_most_once_no_fault. Qed.
+
+(* ---- the log is a log: evaluation only prepends; one logged event per collaborator call ---- *)
+Theorem C05_log_monotone : forall W fuel, all_six W fuel mono.
+Proof. exact log_monotone. Qed.
+
+Theorem C05_calls_counts_log : forall W fuel,
+  all_six W fuel (fun s s' => calls s = N.of_nat (length (log s)) -> calls s' = N.of_nat (length (log s'))).
+Proof. exact calls_counts_log. Qed.
+
+Theorem C05_run_calls_counts_log : forall fuel W name d,
+  calls (snd (eval_env W fuel "" name d st0)) = N.of_nat (length (ob_log (run fuel W name d))).
+Proof. exact run_calls_counts_log. Qed.
+
+(* ---- transfer to the correspondence check: an implementation log that matches the model's ---- *)
+Theorem C05_matched_check_opens_nothing : forall fuel W name d lg,
+  w_check W = true -> log_matches (ob_log (run fuel W name d)) lg = true ->
+  (w_check W && negb (Nat.eqb (length (C05.opens lg)) 0)) = false.
+Proof. exact matched_check_opens_nothing. Qed.
+
+Theorem C05_matched_opens_ok : forall fuel W name d lg p i r c,
+  log_matches (ob_log (run fuel W name d)) lg = true ->
+  In (OOpen p i r c) lg ->
+  w_check W = false
+  /\ x_has_unknown i = false
+  /\ x_is_obj i = true
+  /\ (exists pv, alookup p (w_provs W) = Some pv)
+  /\ (name <> "" -> r = name)
+  /\ (c = name \/ In (OLoad c) lg).
+Proof. exact matched_opens_ok. Qed.
+
+Theorem C05_matched_loads_once : forall fuel W name d lg n,
+  w_fault W = None -> ok_load W n = true ->
+  log_matches (ob_log (run fuel W name d)) lg = true ->
+  In (OLoad n) lg ->
+  C05.count_str n (oloads lg) = 1%nat.
+Proof. exact matched_loads_once. Qed.
+
+(* ---- examples: the events do occur; the hypotheses are satisfiable ---- *)
+Example C05_ex_open_mode :
+  ob_log (run 20 (ex_world false false) "e" ex_def1)
+  = [EvLoadProvider "p";
+     EvOpen ("e", [IKey "a"]) "p" (XObj false false [("k", XScalar false false (SStr "v"))]) "e" "e"].
+Proof. vm_compute. reflexivity. Qed.
+
+Example C05_ex_check_mode : ob_log (run 20 (ex_world true false) "e" ex_def1) = [EvLoadProvider "p"].
+Proof. vm_compute. reflexivity. Qed.
+
+(* referenced three times, opened once; an imported environment's provider gets root "e", current "imp" *)
+Example C05_ex_refs_and_import :
+  ob_log (run 30 (ex_world false false) "e" ex_def2)
+  = [EvLoad "imp"; EvLoadProvider "p";
+     EvOpen ("imp", [IKey "b"]) "p" (XObj false false [("k", XScalar false false (SStr "w"))]) "e" "imp";
+     EvLoadProvider "p";
+     EvOpen ("e", [IKey "a"]) "p" (XObj false false [("k", XScalar false false (SStr "v"))]) "e" "e";
+     EvDecrypt "e" "c1ph3r"].
+Proof. vm_compute. reflexivity. Qed.
+
+(* imports [imp, imp, imp] with the first collaborator call faulted: loaded twice, ONE successful load *)
+Definition C05_ex_faulty : world :=
+  {| w_envs := w_envs (ex_world false false); w_provs := w_provs (ex_world false false); w_ctx := [];
+     w_check := false; w_show := false; w_fault := Some 0; w_decrypt := fun _ _ => None |}.
+Definition C05_ex_triple : envdef :=
+  {| ed_imports := [("imp", true); ("imp", true); ("imp", true)]; ed_values := [("z", ENull)] |}.
+
+Example C05_ex_retry_after_failed_load :
+  let lg := log (snd (eval_env C05_ex_faulty 30 "" "e" C05_ex_triple st0)) in
+  rev lg = [EvLoad "imp"; EvLoad "imp"; EvLoadProvider "p";
+            EvOpen ("imp", [IKey "b"]) "p" (XObj false false [("k", XScalar false false (SStr "w"))]) "e" "imp"]
+  /\ succ_loads C05_ex_faulty lg = ["imp"].
+Proof. vm_compute. split; reflexivity. Qed.
